@@ -7,7 +7,9 @@ EXPLANATION = ("Static MIR rules: (R04.1) in <EncryptionLayerFailSafeReader as R
                "Default / the constructor copy, and in mlar the call enabling unauthenticated data is edge-dominated by the true outcome of "
                "get_flag(\"allow_unauthenticated_data\"), a flag declared with ArgAction::SetTrue; (R04.3) no unauthenticated chunk load "
                "in the constructor outside the unauthenticated mode edge; (R04.4) the wrong-tag -> Ok(0) arm latches a field of self that "
-               "guards later reads. Decides the structural clauses only; 'prefix of the original' is runtime.")
+               "guards later reads, and no path from the Err edge of read_internal that is consistent with the wrong-tag error reaches an Ok(..) result without the latch "
+               "store; (R04.5) below the latch, no call site of a function that may return AuthenticatedDecryptionWrongTag (exact calls and fn pointers) lets that "
+               "error reach an Ok(..) result: the failure always arrives at the latch. Decides the structural clauses only; 'prefix of the original' is runtime.")
 TRUSTED = ['rustc MIR', 'clap flag semantics (SetTrue defaults to false)']
 ASSUMPTIONS = ['byte-level prefix relation between authenticated and unauthenticated results is not decided']
 
